@@ -585,6 +585,42 @@ def emit_ragged_examples(ex):
     return "\n".join(lines)
 
 
+def _int_const(e):
+    """an integer constant expression: literals combined with + - * // **"""
+    if isinstance(e, ast.Constant) and isinstance(e.value, int) and not isinstance(e.value, bool):
+        return e.value
+    if isinstance(e, ast.UnaryOp) and isinstance(e.op, ast.USub):
+        return -_int_const(e.operand)
+    if isinstance(e, ast.BinOp):
+        a, b = _int_const(e.left), _int_const(e.right)
+        if isinstance(e.op, ast.Add): return a + b
+        if isinstance(e.op, ast.Sub): return a - b
+        if isinstance(e.op, ast.Mult): return a * b
+        if isinstance(e.op, ast.FloorDiv): return a // b
+        if isinstance(e.op, ast.Pow) and 0 <= b <= 128: return a ** b
+    raise Unsupported("not an integer constant expression")
+
+
+def r_size_limit(path):
+    """readcoder (ragged): `if dra._values.size > LIMIT: return None` for int64 indices"""
+    tree = ast.parse(path.read_text(encoding='utf-8'))
+    fn = next((n for n in tree.body if isinstance(n, ast.FunctionDef) and n.name == 'readcoder'), None)
+    if fn is None:
+        raise Unsupported("readcoderaggedarray.readcoder not found")
+    found = []
+    for node in ast.walk(fn):
+        if isinstance(node, ast.Compare) and len(node.ops) == 1 and isinstance(node.left, ast.Attribute) \
+                and node.left.attr == 'size':
+            op = {ast.Gt: '>', ast.GtE: '>='}.get(type(node.ops[0]))
+            if op is None:
+                raise Unsupported("readcoder: size test is not > or >=")
+            found.append((op, _int_const(node.comparators[0])))
+    if len(found) != 1:
+        raise Unsupported(f"readcoder: expected one test on the values size, found {len(found)}")
+    op, c = found[0]
+    return c if op == '>' else c - 1       # largest size for which code is still given
+
+
 def gen_tables(repo):
     rc = module_literals(repo / 'darr/readcodearray.py')
     nt = module_literals(repo / 'darr/numtype.py')
@@ -634,6 +670,8 @@ def gen_tables(repo):
     out.append("Definition readcodefunc_ragged : list (string * string) :=\n [" +
                ";\n  ".join(f"({coq_str(k)}, {coq_str(v)})" for k, v in fk) + "].\n")
     out.append(emit_ragged_examples(ragged_examples(repo / 'darr/readcoderaggedarray.py', fk)))
+    out.append("(* R read code for int64 indices is given up to this number of values *)\n"
+               f"Definition r_size_limit : Z := {r_size_limit(repo / 'darr/readcoderaggedarray.py')}.\n")
     la = languages_tuple(repo / 'darr/array.py', 'readcodetxt')
     out.append("Definition readme_languages_array : list (string * string) :=\n [" +
                ";\n  ".join(f"({coq_str(h)}, {coq_str(k)})" for h, k in la) + "].\n")
